@@ -58,7 +58,7 @@ def gen_service_program(rng: Any, *, crash: bool = False) -> dict[str, Any]:
                     "spawn_via": rng.choice(["method", "shortcut"]),
                     # how a callable teardown action is given: plain function, functools.partial, or an object with __call__
                     "action_form": rng.choice(["function", "function", "partial", "object", "unhashable_object", "builtin", "method_wrapper"]),
-                    "func_form": rng.choice(["function", "function", "partial", "object", "unhashable_object"]),
+                    "func_form": rng.choice(["function", "function", "partial", "object", "unhashable_object", "lambda"]),
                     "start_delay": 0}
             if spec["started_value"] and rng.random() < 0.4:
                 spec["start_delay"] = 0.5  # the task takes a while before it reports itself started
@@ -101,6 +101,11 @@ def wrap_form(func: Any, form: str, takes_task_status: bool) -> Any:
         import functools
 
         return functools.partial(func)
+    if form == "lambda":
+        # the documented way to pass arguments: a plain lambda that returns the coroutine
+        if takes_task_status:
+            return lambda *, task_status: func(task_status=task_status)
+        return lambda: func()
     if form in ("object", "unhashable_object"):
         # "unhashable": a callable object with __eq__ but no __hash__ (what a plain @dataclass with __call__ is)
         extra: dict[str, Any] = {"__eq__": lambda s, o: s is o, "__hash__": None} if form == "unhashable_object" else {}
@@ -320,6 +325,8 @@ class ServiceRun:
                 self.log("svc-spawn", sid, visible_expected=sorted(f"r{r}" for r in registered))
                 if spec["spawn_via"] == "shortcut":
                     val = await start_service_task(func, f"svc{sid}", teardown_action=action)
+                elif sid % 2:
+                    val = await ctx.start_service_task(func=func, name=f"svc{sid}", teardown_action=action)  # all by keyword
                 else:
                     val = await ctx.start_service_task(func, f"svc{sid}", teardown_action=action)
                 self.start_values[sid] = val
@@ -612,7 +619,7 @@ def gen_factory_program(rng: Any) -> dict[str, Any]:
             spec = {"tid": tid, "via": rng.choice(["start_task", "start_task_soon"]), "from": rng.choice(["owner", "foreign", "foreign_sync", "task"]),
                     "dur": rng.choice([0.125, 0.625, 1.125, 2.625, 5.125]), "outcome": outcome, "exc": rng.choice(["ValueError", "Custom", "Group"]),
                     "task_status": rng.random() < 0.5, "name": rng.choice([None, f"task{tid}"]),
-                    "func_form": rng.choice(["function", "function", "partial", "object", "unhashable_object"])}
+                    "func_form": rng.choice(["function", "function", "partial", "object", "unhashable_object", "lambda"])}
             if rng.random() < 0.3:
                 spec["own_teardown"] = True
             if outcome == "return" and rng.random() < 0.3 and (swallow or not will_crash):
@@ -753,9 +760,11 @@ class FactoryRun:
         self.log("spawn-call", tid, via=spec["via"], where=where)
         try:
             if spec["via"] == "start_task":
-                h = await self.factory.start_task(func, spec["name"])
+                h = await (self.factory.start_task(func, name=spec["name"]) if tid % 2 else self.factory.start_task(func, spec["name"]))
+            elif spec["name"] is None and tid % 3 == 0:
+                h = self.factory.start_task_soon(func)  # the name simply left out
             else:
-                h = self.factory.start_task_soon(func, spec["name"])
+                h = self.factory.start_task_soon(func, name=spec["name"]) if tid % 2 else self.factory.start_task_soon(func, spec["name"])
         except BaseException as e:
             self.log("spawn-failed", tid, exc=describe_exc(e))
             raise
